@@ -97,14 +97,33 @@ theorem pickle_gives_working_object :
     afterPickle = some ((true, true, true, true), some (.cov 13 (.reg "EME2000" 11) 14 (.reg "EME2000" 11)), some (.buf (.init 1000))) := by
   decide +kernel
 
-/-- OPEN finding C15-deepcopy-shares-data: `copy.deepcopy(sv)` falls through to `ndarray.__deepcopy__`; the new object
-(cell 9) has its own buffer (7) and dict (8), but the dict is a shallow copy — the maneuver list 2 and the `nested`
-container 4 stored in it are the receiver's own cells -/
-theorem deepcopy_shares_data :
-    stdDeepcopy h0 6 = (h0 ++ [ .buf (.init 0),
-                                .dict [("maneuvers", .addr 2), ("nested", .addr 4), ("date", .tok 100), ("form", .form "cartesian"),
-                                       ("frame", .frame (.reg "EME2000" 0))],
-                                .sv false 7 8 ], .ok 9) := by
+/-- everything reachable from the cells in `seen`, by `fuel` rounds of following the stored addresses -/
+def closure (h : Heap) : Nat → List Nat → List Nat
+  | 0, seen => seen
+  | fuel + 1, seen =>
+    closure h fuel ((seen ++ seen.flatMap (fun a => match h[a]? with | some c => refsOf c | none => [])).eraseDups)
+
+/-- `h0` with a covariance attached (its private state carries a copy of the maneuver list, holding the same maneuver object 1),
+then `copy.deepcopy` -/
+def deepcopyOfH0 : Option (Nat × Nat × Heap) :=
+  match setCov h0 6 1000 with
+  | (h, .ok ()) =>
+    match stdDeepcopy h 6 with
+    | (h', .ok n) => some (h.length, n, h')
+    | _ => none
+  | _ => none
+
+/-- REGRESSION witness (was the counter-witness `deepcopy_shares_data` of open finding C15-deepcopy-shares-data, fixed in /repo
+fd4f2bf): nothing reachable from the result of `copy.deepcopy` — buffer, dict, nested containers, covariance, its buffer and
+private state, both maneuver lists AND the maneuver objects in them — existed before; the receiver is untouched; and the result
+does hold a maneuver object (the duplicate) -/
+theorem deepcopy_shares_nothing :
+    (match deepcopyOfH0 with
+     | some (old, n, h') =>
+       (closure h' 8 [n]).all (fun x => old ≤ x) && (h'.take old == (setCov h0 6 1000).1) &&
+       (closure h' 8 [n]).any (fun x => match h'[x]? with | some (.man _) => true | _ => false) &&
+       (closure h' 8 [6]).all (fun x => x < old)
+     | none => false) = true := by
   decide +kernel
 
 /-- a state vector (cell 2) in TOD whose covariance (cell 6, buffer 7) follows it (also labelled TOD) but was attached while
@@ -119,15 +138,18 @@ def h3 : Heap :=
 error`: the first reads the nutation values cached on the Date, the second needs the time-scale offsets) -/
 def envTodEme : Env := fun x y => if x = "TOD" ∧ y = "EME2000" then some .eop else none
 
-/-- OPEN finding C15-frame-change-not-atomic-with-cov: `sv.frame = "MOD"` RAISES (the covariance that has to follow cannot be
-rotated) after the state vector itself has been moved: frame label MOD over transformed values, covariance still TOD —
-the failing assignment did not leave the object in its previous frame/values, and the covariance no longer follows -/
+/-- REGRESSION witness (was the counter-witness of open finding C15-frame-change-not-atomic-with-cov, fixed in /repo 45ca5d0; then
+the result was: frame label MOD over transformed values, covariance still TOD): `sv.frame = "MOD"` raises — the covariance that
+has to follow cannot be rotated — and the `except` clause has put the state vector back: the heap is the one before the call -/
 theorem frame_change_fails_after_state_moved :
-    setFrame h3 2 "MOD" envTodEme =
-      ([ .buf (.xform "TOD" "MOD" (.init 0)),
-         .dict [("date", .tok 100), ("form", .form "cartesian"), ("frame", .frame (.reg "MOD" 0)), ("cov", .addr 6)], .sv false 0 1,
-         .buf (.init 0), .dict [("date", .tok 100), ("form", .form "cartesian"), ("frame", .frame (.reg "EME2000" 0)), ("cov", .none)], .sv false 3 4,
-         .cov 7 (.reg "TOD" 0) 5 (.reg "EME2000" 0), .buf (.init 1000) ], .error .eop) := by
+    setFrame h3 2 "MOD" envTodEme = (h3, .error .eop) := by
+  decide +kernel
+
+/-- … while in an environment where nothing fails the same assignment moves both the state and its covariance -/
+theorem frame_change_moves_state_and_covariance :
+    (match setFrame h3 2 "MOD" with
+     | (h, .ok ()) => frames h 2
+     | _ => none) = some (.reg "MOD" 0, .reg "MOD" 0) := by
   decide +kernel
 
 /-! ### positive witnesses for the constructor / getter / failing-setter sites (each is a defect a maintainer could
